@@ -9,6 +9,7 @@ pub mod ops2;
 pub mod ops3;
 pub mod ops4;
 pub mod ops5;
+pub mod ops6;
 
 use crate::driver::{Acc, CheckImpl, Tier, Viol, announce};
 use crate::fhe::{BACKENDS, EvalSpec, PrepSpec, RunOut, RunResult, Window, WindowMode, backend};
